@@ -11,6 +11,9 @@ import (
 func TestC11(t *testing.T) {
 	mix := fullMix()
 	mix[core.OpRelSet] = 10
+	mix[core.OpRegister] = 2
+	mix[core.OpUnregister] = 1
+	mix["useRegistered"] = 30 // batch calls also through registered filters
 	mix[core.OpRelExchange] = 8
 	mix[core.OpBatchSetRel] = 5
 	mix[core.OpRelExchB] = 5
